@@ -6,6 +6,7 @@ import os
 import random
 import re
 import subprocess
+import traceback
 import sys
 import time
 import warnings
@@ -22,6 +23,36 @@ os.environ.setdefault('PYNETDICOM2_VERIF', '1')
 DRIVER = os.path.join(LEAN, '.lake', 'build', 'bin', 'driver')
 ALLOWED_AXIOMS = {'propext', 'Classical.choice', 'Quot.sound'}
 FORBIDDEN = re.compile(r'\b(sorry|admit|native_decide|bv_decide|implemented_by|unsafe)\b|^axiom |maxHeartbeats 0')
+
+
+class LibError(Exception):
+    """the implementation under test raised where the harness expected a result: the run cannot go on, the
+    property is no longer shown to hold (reported as a broken correspondence, not as an infrastructure error)"""
+
+
+def lib_trace(e):
+    """'file:line function' of the innermost frame inside the library under test, or None"""
+    root = os.path.abspath(REPO) + os.sep
+    hit = None
+    for f in traceback.extract_tb(e.__traceback__):
+        if os.path.abspath(f.filename).startswith(root):
+            hit = '%s:%d %s' % (os.path.relpath(f.filename, root), f.lineno, f.name)
+    return hit
+
+
+def describe_exc(e):
+    """text of an exception caught around a harness run: 'lib: ...' when raised inside the library"""
+    where = lib_trace(e)
+    if where:
+        return 'lib: %s: %s raised at %s' % (type(e).__name__, str(e)[:300], where)
+    return 'harness: %r\n%s' % (e, traceback.format_exc()[-1500:])
+
+
+def raise_for(text):
+    """turn the text of `describe_exc` into the right exception"""
+    if text.startswith('lib:'):
+        raise LibError(text)
+    raise Infra(text)
 
 
 class Infra(Exception):
